@@ -270,10 +270,41 @@ class GraphSim:
         w_ins = 1 if (self.allow_insert and len(self.graphs) > 1 and g is self.graphs[0]
                       and len(g.m.nodes) < self.max_nodes) else 0
         w_meta = 1 if self.use_meta else 0
-        k = ch.weighted([w_add, w_link, w_order, w_dlink, w_dlink_absent, w_dnode, w_ins, w_meta], "step")
+        w_fail = 1 if self.allow_delete else 0
+        k = ch.weighted([w_add, w_link, w_order, w_dlink, w_dlink_absent, w_dnode, w_ins, w_meta, w_fail], "step")
         self.ctx.steps += 1
         return [self.do_add_node, self.do_add_link, self.do_add_order, self.do_delete_link,
-                self.do_delete_absent_link, self.do_delete_node, self.do_insert, self.do_edit_meta][k](actor, g)
+                self.do_delete_absent_link, self.do_delete_node, self.do_insert, self.do_edit_meta, self.do_failing_call][k](actor, g)
+
+    def do_failing_call(self, actor, g):
+        """A call on a handle that is not live: it raises KeyError (a deleted node is unreachable) and changes nothing;
+        the client catches the error and the history goes on (fault, then workload)."""
+        from hugr.hugr.node_port import Node
+        ch = self.ctx.ch
+        dead = list(g.m.dead) + [max(list(g.m.nodes) + g.m.dead) + 1 + ch.draw(3, "beyond")]
+        d = ch.pick(dead, "dead-idx")
+        which = ch.draw(4, "failing-call")
+        name = ["delete_node", "children", "num_out_ports", "lookup"][which]
+        try:
+            if which == 0:
+                g.h.delete_node(Node(d))
+            elif which == 1:
+                g.h.children(Node(d))
+            elif which == 2:
+                g.h.num_out_ports(Node(d))
+            else:
+                g.h[Node(d)]
+            outcome = "returned"
+        except KeyError:
+            outcome = "KeyError"
+        except Exception as e:  # noqa: BLE001
+            outcome = type(e).__name__
+        self.ctx.ev(actor, f"{name}(dead handle)", {"g": g.name, "idx": d}, outcome)
+        self.ctx.fault("call_on_dead_handle")
+        self.ctx.checked("dead-handle")
+        if outcome != "KeyError":
+            self.ctx.violate("lookup", f"dead-handle-{name}:{outcome}", {"idx": d})
+        return ("failing_call", d)
 
     def do_edit_meta(self, actor, g):
         """Edit a node's metadata dictionary in place (through the handle's .metadata or the node data)."""
